@@ -334,7 +334,9 @@ def sequential_events(paths, c):
         m, sub, evs = c, [], []
         for e in p["events"]:
             k = e["kind"]
-            if k == "R":
+            if k == "R" and e.get("ord") == "na":
+                sub.append((e["rval"], BitVecVal(m, 64)))       # plain read: no atomic helper is called, nothing is recorded
+            elif k == "R":
                 sub.append((e["rval"], BitVecVal(m, 64)))
                 evs.append((6 if e.get("op") == "cas-fail" else 3, ORD_CODE[e["ord"]], 0))
             elif k == "RMW":
